@@ -702,7 +702,7 @@ def rule_rx_guard(prog: Program, report: Report, pid: str) -> None:
     import os
     from collections import Counter
 
-    from ..gates import _reviewed, stmt_contexts, view
+    from ..gates import _reviewed, local_move_ok, stmt_contexts, view
 
     report.rules.append("RX-guard")
     n = 0
@@ -738,6 +738,9 @@ def rule_rx_guard(prog: Program, report: Report, pid: str) -> None:
                 continue
             surplus = Counter(nows) - Counter(olds)
             st = next((x for x in stmts if " ".join(src(x).split()) == text), None)
+            if st is not None and len(olds) == 1 and len(nows) == 1 and local_move_ok(v, st, olds[0], nows[0]):
+                report.ob("RX-guard", key, f"`{text[:40]}` moved towards its uses: where it no longer runs nothing reads what it stored")
+                continue
             was = next(iter(missing))
             isnow = next(iter(surplus), "<not reached>")
             report.violate("RX-guard", fn, st or fn.node, f"`{text[:60]}` is performed in different cases", f"every statement and test of the reviewed {fn.qual} is unchanged, but `{text[:60]}` was reviewed [{was[:200]}] and is now [{isnow[:200]}]: it moved under / across a test or a loop, so it is skipped or repeated in cases where the reviewed code performed it once", what="the statements of an otherwise unchanged anchored function keep their control context")
@@ -745,6 +748,257 @@ def rule_rx_guard(prog: Program, report: Report, pid: str) -> None:
         if not flagged:
             report.ob("RX-guard", key, "every reviewed statement keeps its control context")
     report.count("RX-guard anchored functions compared with their reviewed control contexts", n)
+
+
+# ---------------------------------------------------------------------------- RX-edit
+_SIM_KINDS = (ast.Assign, ast.AnnAssign, ast.AugAssign, ast.Expr, ast.Return, ast.Raise, ast.Break, ast.Continue, ast.Delete, ast.Assert)
+_CMP_FAMILY = {ast.Lt: "<", ast.LtE: "<=", ast.Gt: ">", ast.GtE: ">=", ast.Eq: "==", ast.NotEq: "!=", ast.Is: "is", ast.IsNot: "is not", ast.In: "in", ast.NotIn: "not in"}
+
+
+def _edit_between(a: ast.AST, b: ast.AST) -> list[tuple[str, ast.AST, ast.AST]]:
+    """Differences between two expression / statement trees of the same shape, as (kind, old, new):
+    one entry per differing leaf or operator; a single ("shape", ..) entry where the shapes differ."""
+    out: list[tuple[str, ast.AST, ast.AST]] = []
+
+    def same(x: ast.AST, y: ast.AST) -> bool:
+        return ast.dump(x) == ast.dump(y)
+
+    def go(x: ast.AST, y: ast.AST) -> None:
+        if len(out) > 3:
+            return
+        if type(x) is not type(y):
+            # `not e` <-> `e`
+            if isinstance(x, ast.UnaryOp) and isinstance(x.op, ast.Not) and same(x.operand, y):
+                out.append(("not removed", x, y))
+            elif isinstance(y, ast.UnaryOp) and isinstance(y.op, ast.Not) and same(y.operand, x):
+                out.append(("not added", x, y))
+            elif isinstance(x, ast.BoolOp) and len(x.values) == 2 and any(same(v_, y) for v_ in x.values):
+                out.append(("operand dropped", x, y))
+            elif isinstance(y, ast.Constant) and isinstance(y.value, bool) and not isinstance(x, ast.Constant):
+                out.append(("forced", x, y))
+            else:
+                out.append(("shape", x, y))
+            return
+        if isinstance(x, ast.Constant):
+            if type(x.value) is not type(y.value) or x.value != y.value:
+                out.append(("constant", x, y))
+            return
+        if isinstance(x, ast.Name):
+            if x.id != y.id:
+                out.append(("name", x, y))
+            return
+        if isinstance(x, ast.Attribute):
+            if x.attr != y.attr:
+                out.append(("attribute", x, y))
+            go(x.value, y.value)
+            return
+        if isinstance(x, ast.BoolOp):
+            if len(x.values) == len(y.values) + 1 and len(y.values) >= 2 and type(x.op) is type(y.op):
+                # one operand of a longer chain dropped
+                for i in range(len(x.values)):
+                    rest = x.values[:i] + x.values[i + 1 :]
+                    if all(same(p_, q_) for p_, q_ in zip(rest, y.values)):
+                        out.append(("operand dropped", x, y))
+                        return
+                out.append(("shape", x, y))
+                return
+            if type(x.op) is not type(y.op):
+                out.append(("and/or", x, y))
+        if isinstance(x, (ast.BinOp, ast.UnaryOp, ast.AugAssign)) and type(x.op) is not type(y.op):
+            out.append(("operator", x, y))
+        if isinstance(x, ast.Compare):
+            if len(x.ops) != len(y.ops):
+                out.append(("shape", x, y))
+                return
+            for i, (o1, o2) in enumerate(zip(x.ops, y.ops)):
+                if type(o1) is not type(o2):
+                    out.append(("comparison", x, y))
+        for (na, va), (nb, vb) in zip(ast.iter_fields(x), ast.iter_fields(y)):
+            if na in ("ctx", "op", "ops", "type_comment", "kind", "annotation"):
+                continue
+            if isinstance(va, list) and isinstance(vb, list):
+                if len(va) != len(vb):
+                    out.append(("shape", x, y))
+                    return
+                for p_, q_ in zip(va, vb):
+                    if isinstance(p_, ast.AST) and isinstance(q_, ast.AST):
+                        go(p_, q_)
+                    elif p_ != q_:
+                        out.append(("shape", x, y))
+                        return
+            elif isinstance(va, ast.AST) and isinstance(vb, ast.AST):
+                go(va, vb)
+            elif va != vb:
+                out.append(("shape", x, y))
+                return
+
+    go(a, b)
+    return out
+
+
+def rule_rx_edit(prog: Program, report: Report, pid: str) -> None:
+    """One statement or one test of an anchored function computes something else and the rest of the
+    function is the reviewed one, word for word: a literal with another value, `+` for `-`, `and` for
+    `or`, a comparison operator that relates other pairs (`<` for `<=`, `==` for `!=`), a `not` added or
+    removed, an operand of a condition dropped, a test replaced by a constant, a sibling attribute or
+    another variable read instead, or a live statement deleted.  A refactoring re-writes more than one
+    token (and the spelling of a value does not matter: the comparison is on the syntax tree, `0xFFFF`
+    is 65535); a single token that changes what an expression denotes is not a re-writing of it.
+    Renamed variables (the old name is gone, the new one is new), aliases that resolve to the same
+    expression, `is` / `==` against None, and typing-only changes are recognised as spellings."""
+    from collections import Counter
+
+    from ..gates import _reviewed, view
+    from .rn import canon
+
+    report.rules.append("RX-edit")
+    n = 0
+    for key in sorted(_anchored_keys(prog, pid)):
+        if not prog.has_func(key):
+            continue
+        v = view(prog, key)
+        rv = _reviewed(v)
+        if rv is None or "stmts" not in rv:
+            continue
+        fn = v.fn
+        stmts = [st for st in walk_own(fn.node) if isinstance(st, _SIM_KINDS) and not (isinstance(st, ast.Expr) and isinstance(st.value, ast.Constant))]
+        s_now = Counter(" ".join(src(st).split()) for st in stmts)
+        tnodes = [st for st in walk_own(fn.node) if isinstance(st, (ast.If, ast.While))]
+        fnodes = [st for st in walk_own(fn.node) if isinstance(st, ast.For)]
+        t_now = Counter([" ".join(src(st.test).split()) for st in tnodes] + ["for " + " ".join(src(st.target).split()) + " in " + " ".join(src(st.iter).split()) for st in fnodes])
+        s_old, t_old = Counter(rv["stmts"]), Counter(rv["tests"])
+        gone_s, new_s = list((s_old - s_now).elements()), list((s_now - s_old).elements())
+        gone_t, new_t = list((t_old - t_now).elements()), list((t_now - t_old).elements())
+        n += 1
+        if not (gone_s or new_s or gone_t or new_t):
+            report.ob("RX-edit", key, "every statement and test is the reviewed one")
+            continue
+        names_now = {x.id for x in ast.walk(fn.node) if isinstance(x, ast.Name)} | {a.arg for a in ast.walk(fn.node) if isinstance(a, ast.arg)}
+
+        def locate(text: str) -> ast.AST:
+            for st in stmts:
+                if " ".join(src(st).split()) == text:
+                    return st
+            for st in tnodes:
+                if " ".join(src(st.test).split()) == text:
+                    return st
+            for st in fnodes:
+                if "for " + " ".join(src(st.target).split()) + " in " + " ".join(src(st.iter).split()) == text:
+                    return st
+            return fn.node
+
+        def parse(text: str) -> ast.AST | None:
+            try:
+                if text.startswith("for ") and " in " in text:
+                    return ast.parse(text + ":\n pass").body[0]
+                if text in ("break", "continue") or text.startswith(("return", "raise")):
+                    return ast.parse("def _f():\n for _ in ():\n  " + text).body[0].body[0].body[0]  # type: ignore[attr-defined]
+                return ast.parse(text).body[0]
+            except SyntaxError:
+                return None
+
+        # ---- a single deleted statement
+        if len(gone_s) == 1 and not new_s and not gone_t and not new_t:
+            text = gone_s[0]
+            old = parse(text)
+            verdict = None
+            if isinstance(old, ast.Expr) and any(isinstance(x, (ast.Call, ast.Await, ast.Yield, ast.YieldFrom)) for x in ast.walk(old)):
+                verdict = "the call it made is no longer made"
+            elif isinstance(old, (ast.Assign, ast.AugAssign, ast.AnnAssign)) and getattr(old, "value", None) is not None:
+                tg = old.targets if isinstance(old, ast.Assign) else [old.target]
+                flat = [y for t_ in tg for y in (t_.elts if isinstance(t_, (ast.Tuple, ast.List)) else [t_])]
+                if any(not isinstance(t_, ast.Name) for t_ in flat):
+                    verdict = "the field / element it stored is no longer stored"
+                else:
+                    live = [t_.id for t_ in flat if any(isinstance(x, ast.Name) and x.id == t_.id and isinstance(x.ctx, ast.Load) for x in ast.walk(fn.node)) or any(isinstance(x, (ast.Nonlocal, ast.Global)) and t_.id in x.names for x in ast.walk(fn.node))]
+                    if live:
+                        verdict = f"`{live[0]}` is still read but no longer updated there"
+            elif isinstance(old, (ast.Return, ast.Raise, ast.Break, ast.Continue)):
+                from ..norm import shape_of
+
+                if "shape" not in rv or shape_of(fn.node) != rv["shape"]:
+                    verdict = "the exit it took is no longer taken"
+            elif isinstance(old, (ast.Delete, ast.Assert)):
+                verdict = None
+            if verdict:
+                report.violate("RX-edit", fn, fn.node, f"`{text[:70]}` was deleted", f"every other statement and every test of the reviewed {fn.qual} is unchanged, and `{text[:80]}` is gone: {verdict}", what="no live statement is deleted from an otherwise unchanged anchored function")
+            else:
+                report.ob("RX-edit", key, f"deleted `{text[:40]}` had no effect the function still uses")
+            continue
+        # ---- a single rewritten statement or test
+        pair = None
+        if len(gone_s) == 1 and len(new_s) == 1 and not gone_t and not new_t:
+            pair = (gone_s[0], new_s[0])
+        elif len(gone_t) == 1 and len(new_t) == 1 and not gone_s and not new_s:
+            pair = (gone_t[0], new_t[0])
+        if pair is None:
+            report.ob("RX-edit", key, "the function differs from the reviewed one in more than one place (judged by the other rules)", nontrivial=False)
+            continue
+        a, b = parse(pair[0]), parse(pair[1])
+        if a is None or b is None:
+            continue
+        if gone_t and rv.get("ctx"):
+            # a test re-written together with its branches (negated and the branches exchanged): every
+            # statement is still performed under the same canonical facts
+            from ..gates import stmt_contexts
+
+            try:
+                comp = locate(pair[1])
+                inside = {" ".join(src(x).split()) for x in ast.walk(comp) if isinstance(x, _SIM_KINDS) and not (isinstance(x, ast.Expr) and isinstance(x.value, ast.Constant))} if isinstance(comp, (ast.If, ast.While)) else set()
+                ctx_now = stmt_contexts(v)
+                if inside and all(ctx_now.get(t_) == rv["ctx"].get(t_) for t_ in inside):
+                    report.ob("RX-edit", key, f"the test `{pair[1][:50]}` is the reviewed `{pair[0][:50]}` with its branches exchanged: every statement keeps its control context")
+                    continue
+            except Exception:  # noqa: BLE001
+                pass
+        eds = _edit_between(a, b)
+        if len(eds) != 1 or eds[0][0] == "shape":
+            report.ob("RX-edit", key, "the rewritten statement differs by more than one token (judged by the other rules)", nontrivial=False)
+            continue
+        kind, x, y = eds[0]
+        at = locate(pair[1])
+        why = None
+        if kind == "constant":
+            why = f"the literal {x.value!r} became {y.value!r}"  # type: ignore[attr-defined]
+            # typing-only: a string annotation inside cast(...)
+            if isinstance(x.value, str) or isinstance(y.value, str):  # type: ignore[attr-defined]
+                if canon(a) == canon(b):  # type: ignore[arg-type]
+                    why = None
+        elif kind == "operator":
+            why = f"the operator {type(x.op).__name__} became {type(y.op).__name__}"  # type: ignore[attr-defined]
+        elif kind == "and/or":
+            why = "`and` and `or` were exchanged"
+        elif kind == "comparison":
+            ops = [(o1, o2, l, r) for o1, o2, l, r in zip(x.ops, y.ops, [x.left] + x.comparators, x.comparators) if type(o1) is not type(o2)]  # type: ignore[attr-defined]
+            o1, o2, l_, r_ = ops[0]
+            none_like = any(isinstance(z, ast.Constant) and z.value is None for z in (l_, r_))
+            if none_like and {type(o1), type(o2)} in ({ast.Is, ast.Eq}, {ast.IsNot, ast.NotEq}):
+                why = None
+            else:
+                why = f"the comparison `{_CMP_FAMILY.get(type(o1), '?')}` became `{_CMP_FAMILY.get(type(o2), '?')}`"
+        elif kind in ("not removed", "not added"):
+            why = "a `not` was " + kind.split()[1]
+        elif kind == "operand dropped":
+            why = f"an operand of `{' '.join(src(x).split())[:60]}` was dropped"
+        elif kind == "forced":
+            why = f"`{' '.join(src(x).split())[:60]}` was replaced by the constant {y.value}"  # type: ignore[attr-defined]
+        elif kind == "attribute":
+            why = f"`.{x.attr}` became `.{y.attr}`"  # type: ignore[attr-defined]
+        elif kind == "name":
+            old_id, new_id = x.id, y.id  # type: ignore[attr-defined]
+            if new_id not in rv.get("names", []) and old_id not in names_now:
+                why = None  # renamed
+            elif canon(v.res.expr(ast.Name(id=old_id, ctx=ast.Load()), 4)) == canon(v.res.expr(ast.Name(id=new_id, ctx=ast.Load()), 4)) and old_id in names_now:
+                why = None  # an alias of the same expression
+            elif isinstance(x.ctx, ast.Store) or isinstance(y.ctx, ast.Store):  # type: ignore[attr-defined]
+                why = None  # an assignment target: a renamed / split local, judged by the value rules
+            else:
+                why = f"`{old_id}` was replaced by `{new_id}`"
+        if why is None or canon(a) == canon(b):  # type: ignore[arg-type]
+            report.ob("RX-edit", key, f"`{pair[1][:50]}` is another spelling of the reviewed `{pair[0][:50]}`")
+            continue
+        report.violate("RX-edit", fn, at, f"`{pair[0][:70]}` became `{pair[1][:70]}`", f"every other statement and test of the reviewed {fn.qual} is unchanged, and in this one {why}: the expression denotes something else, and one changed token is not a re-writing of the function", what="no single token of an otherwise unchanged anchored function changes what its expression denotes")
+    report.count("RX-edit anchored functions compared token by token with their reviewed statements", n)
 
 
 # ---------------------------------------------------------------------------- RK-const / RD-default
